@@ -90,7 +90,7 @@ def run(ctx):
     rep.rule("C25.R6", "quadrant offsets (k-1)*pi/2", 4)
     cls = ctx.model.cls("Revolute", REV)
     # R1
-    allowed = {"assembler_callback", "l", "reset"}
+    allowed = {"__init__", "assembler_callback", "l", "reset"}
     for rel, mod in ctx.repo.modules.items():
         if not rel.startswith("cardillo/"):
             continue
@@ -105,7 +105,7 @@ def run(ctx):
                         if rel == REV and q.split(".")[0] == "Revolute" and q.split(".")[-1] in allowed and isinstance(t.value, ast.Name) and t.value.id == "self":
                             rep.ok("C25.R1", C, n)
                         else:
-                            rep.bad("C25.R1", C, n, f"`{t.attr}` is written outside Revolute.assembler_callback/l/reset: the tracked angle can jump", f"{rel}:{n.lineno}")
+                            rep.bad("C25.R1", C, n, f"`{t.attr}` is written outside Revolute.__init__/assembler_callback/l/reset: the tracked angle can jump", f"{rel}:{n.lineno}")
     # R2
     def consts(fn):
         out = {}
@@ -113,14 +113,20 @@ def run(ctx):
             if isinstance(n, ast.Assign) and len(n.targets) == 1 and isinstance(n.targets[0], ast.Attribute) and n.targets[0].attr in FIELDS:
                 out[n.targets[0].attr] = norm_src(n.value)
         return out
-    init, res = cls.methods.get("assembler_callback"), cls.methods.get("reset")
-    if init is None or res is None:
-        raise AnalysisError("Revolute.assembler_callback / reset vanished")
-    ci, cr = consts(init), consts(res)
+    res = cls.methods.get("reset")
+    if res is None:
+        raise AnalysisError("Revolute.reset vanished")
+    # the initial tracking state is set where the joint is created / assembled: assembler_callback first, else __init__
+    ci = {}
+    for mname in ("__init__", "assembler_callback"):
+        m = cls.methods.get(mname)
+        if m is not None:
+            ci.update(consts(m))
+    cr = consts(res)
     for f in FIELDS:
         C = f"{REV}:Revolute.reset"
         if f not in ci:
-            raise AnalysisError(f"initialisation of {f} not found in Revolute.assembler_callback")
+            raise AnalysisError(f"initialisation of {f} not found in Revolute.__init__ / assembler_callback")
         if cr.get(f) == ci[f]:
             rep.ok("C25.R2", C, f"self.{f} = {ci[f]} (same as initialisation)")
         else:
@@ -316,6 +322,8 @@ MUTANTS = [
          old="        elif x < 0 and y <= 0:\n            return 3", new="        elif x < 0 and y < 0:\n            return 3", expect="C25.R4"),
 ]
 NEUTRAL = [
+    dict(id="c25-n-init", canary=True, what="tracking fields additionally initialised in __init__ (no behavioural change for C25)", file=REV,
+         old="        self.angle_dot = self.l_dot\n\n        super().__init__(", new="        self.angle_dot = self.l_dot\n\n        self.n_full_rotations = 0\n        self.previous_quadrant = 1\n\n        super().__init__("),
     dict(id="c25-n1", canary=True, what="quadrant tests reordered inside the conjunctions", file=REV,
          old="        if x > 0 and y >= 0:\n            return 1", new="        if y >= 0 and 0 < x:\n            return 1"),
 ]
